@@ -504,12 +504,12 @@ def size_lists():
 
 def data_bytes(maxlen, align=1, minlen=0):
     lens = st.one_of(
-        st.sampled_from([0, 1, 2, 15, 16, 17, 31, 32, 33, 47, 48, 49, 63, 64, 65, 127, 128, 129]),
+        st.sampled_from([16, 1, 2, 15, 17, 31, 32, 33, 0, 47, 48, 49, 63, 64, 65, 127, 128, 129]),
         st.integers(1, min(maxlen, 100)),
         st.integers(1, min(maxlen, 100)),
         st.integers(1, maxlen),
         st.integers(1, maxlen),
-    ).map(lambda n: max(minlen, min(maxlen, n) // align * align))
+    ).map(lambda n: max(minlen, min(maxlen // align * align, -(-n // align) * align)))  # round up to the alignment, 0 stays 0
     content = st.sampled_from(["random", "random", "random", "zero", "ff", "repeat"])
 
     @st.composite
